@@ -129,8 +129,11 @@ ezc3d::DataNS::Frame &ezc3d::DataNS::Data::frame_nonConst(size_t idx)
 
 void ezc3d::DataNS::Data::frame(const ezc3d::DataNS::Frame &frame, size_t idx)
 {
-    if (idx == SIZE_MAX)
-        _frames.push_back(frame);
+    if (idx == SIZE_MAX){
+        // Copy the content (not the handles) so the stored frame is independent of the one of the caller
+        _frames.push_back(ezc3d::DataNS::Frame());
+        _frames.back().add(frame);
+    }
     else {
         if (idx >= _frames.size())
             _frames.resize(idx+1);
